@@ -588,6 +588,52 @@ const sidCb = 20
 
 // cbCloses (C07, C08): an expiry callback that calls Close, and a Close issued while a callback is still running: both
 // must return (callbacks run on their own goroutine with no lock held; Close does not wait for them). Real clock.
+// cbPendingQueue (C20, C07): the timer fires while an asynchronous write is still queued on the shard (the drain token
+// was busy when it was issued and is free again, the worker has gone back to sleep); the callback then writes
+// synchronously to that shard. Callbacks run with no cache lock held: it must return.
+func cbPendingQueue(m *meta, r *rand.Rand, round int) {
+	kioshun.VerifSetClock(false, 0)
+	pol := pick(r, []kioshun.EvictionPolicy{kioshun.LRU, kioshun.SieveTinyLFU, kioshun.FIFO, kioshun.LFU})
+	ctx := fmt.Sprintf("callback scenario pending-queue round %d policy %v", round, pol)
+	watch(ctx)
+	defer unwatch()
+	// the write worker is adopted by the scheduler and left parked at its select, so the queued write stays queued
+	kioshun.VerifSchedReset(true, 300*time.Millisecond)
+	kioshun.VerifSchedAdoptWorkers(true)
+	c, err := kioshun.New[int, int](kioshun.Config{MaxSize: 64, ShardCount: 1, EvictionPolicy: pol, WriteBufferSize: 64})
+	must(err)
+	for i := 0; i < 5000 && !kioshun.VerifSchedKnown(1000); i++ {
+		time.Sleep(100 * time.Microsecond)
+	}
+	kioshun.VerifSchedAdoptWorkers(false)
+	defer kioshun.VerifSchedReset(false, 0)
+	defer kioshun.VerifSchedRelease()
+	if !kioshun.VerifSchedKnown(1000) || stepUntil(1000, 301) != 301 {
+		m.count("cb_pending_setup_failed")
+		return
+	}
+	done := make(chan struct{})
+	c.SetWithCallback(1, 10, 30*time.Millisecond, func(k, v int) {
+		c.Set(2, 20, kioshun.NoExpiration)
+		c.Delete(3)
+		c.Sync()
+		close(done)
+	})
+	c.VerifHoldDrain(0, true)
+	c.SetAsync(5, 50, kioshun.NoExpiration) // queued: the worker's wake-up finds the token busy
+	time.Sleep(2 * time.Millisecond)
+	c.VerifHoldDrain(0, false)
+	select {
+	case <-done:
+	case <-time.After(3 * time.Second):
+		for _, p := range []string{"C20", "C07"} {
+			m.violate(p, ctx+": SetWithCallback(1,10,30ms); a SetAsync left queued on the shard; the callback (Set, Delete, Sync on that shard) did not return within 3 s: callbacks run with no cache lock held so they may use the cache", ctx)
+		}
+	}
+	go c.Close()
+	m.count("cb_pending_queue")
+}
+
 func cbCloses(m *meta, r *rand.Rand, round int) {
 	kioshun.VerifSetClock(false, 0)
 	pol := pick(r, []kioshun.EvictionPolicy{kioshun.LRU, kioshun.SieveTinyLFU, kioshun.FIFO})
@@ -707,6 +753,10 @@ func streamCb(o opts) {
 		}
 		if kind == 18 {
 			cbCloses(m, r, round)
+			continue
+		}
+		if kind == 17 {
+			cbPendingQueue(m, r, round)
 			continue
 		}
 		if kind > 14 {
